@@ -62,6 +62,13 @@ def cases(tier, seed):
         for li, ol in enumerate(lists):
             for dk in fix_inv.DATA_KINDS:
                 yield ["inv", [5, 5], [3, 3], bits, "nonneg" if (bits + li) % 2 else "signed", 1 + bits % 2, ol, dk, seed]
+    # the same datasets expressed in other units (data and noise scaled together, regularization scaled to match): the
+    # system is an exact rescaling, so the solution must be the rescaled optimum
+    for bi, bits in enumerate(fam):
+        for li, ol in enumerate(lists):
+            dk = fix_inv.DATA_KINDS[(bi + li) % 3]
+            units = (1e-5, 3e3)[(bi + li) % 2]
+            yield ["inv", [5, 5], [3, 3], bits, "nonneg" if (bits + li) % 2 else "signed", 1 + bits % 2, ol, dk, seed, units]
 
 
 # ----------------------------------------------------------------------------- solver routine
@@ -91,6 +98,9 @@ def brute(A, b):
         if best is None or f < best - 1e-13:
             best, bs = f, s
     return bs
+
+
+SOLVER_SCALES = ((1e10, 1e5), (1e-8, 1e-4), (1e6, 1e9))  # (factor on A, factor on b): systems of datasets in other units
 
 
 def run_solver(v, case):
@@ -146,6 +156,27 @@ def run_solver(v, case):
             close = s.shape == sref.shape and np.allclose(s, sref, rtol=1e-6, atol=1e-6 * max(1.0, np.abs(sref).max()))
             v.ok(ok and close, cls,
                  lambda: "A=%s b=%s P_initial=%s -> s=%s, optimum=%s (feasible,stationary,dual)=%s" % (A.tolist(), bt, P.tolist(), s.tolist(), sref.tolist(), parts))
+        # the same system in other units: minimiser of (1/2) s^T (aA) s - (cb)^T s over s>=0 is (c/a) * minimiser of the original
+        for a, c in SOLVER_SCALES:
+            want = sref * (c / a)
+            for kind, P in starts[:2]:
+                cls = "fnnls:scaled-system:" + ("cold-start" if kind == "cold" else "warm-start")
+                try:
+                    s = np.asarray(fnnls_cholesky(A * a, b * c, P_initial=P.copy()), dtype=float)
+                except Exception as e:
+                    v.fail(cls + ":exception", "A=%g*%s b=%g*%s P=%s: %r" % (a, A.tolist(), c, bt, P.tolist(), e))
+                    continue
+                v.ok(s.shape == want.shape and np.allclose(s, want, rtol=1e-6, atol=1e-6 * max(c / a, np.abs(want).max())), cls,
+                     lambda: "A=%g*%s b=%g*%s P_initial=%s -> s=%s, optimum=%s" % (a, A.tolist(), c, bt, P.tolist(), s.tolist(), want.tolist()))
+            for pin in (False, True):
+                cls = "reconstruction_positive_only_from:scaled-system" + (":warm-start" if pin else "")
+                try:
+                    sw = np.asarray(_iu.reconstruction_positive_only_from(data_vector=b * c, curvature_reg_matrix=A * a, settings=_settings(pin)), dtype=float)
+                except Exception as e:
+                    v.fail(cls + ":exception", "A=%g*%s b=%g*%s: %r" % (a, A.tolist(), c, bt, e))
+                    continue
+                v.ok(sw.shape == want.shape and np.allclose(sw, want, rtol=1e-6, atol=1e-6 * max(c / a, np.abs(want).max())), cls,
+                     lambda: "A=%g*%s b=%g*%s -> s=%s, optimum=%s" % (a, A.tolist(), c, bt, sw.tolist(), want.tolist()))
     v.nontrivial = nontriv
     v.outcome = "solver:n%d:classes%d" % (n, len(classes))
     return classes
@@ -155,25 +186,40 @@ def run_solver(v, case):
 
 
 def run_inv(v, case):
-    _, frame, ks, bits, kind, sub, (kinds, regs), dk, seed = case
+    _, frame, ks, bits, kind, sub, (kinds, regs), dk, seed = case[:9]
+    units = case[9] if len(case) > 9 else 1.0
     neg_seen = False
     sup_differs = False
+    n_un = int((~dom.interior_mask(tuple(frame), tuple(ks), bits)).sum())
+    img_zero = [n_un // 2]  # image pixel whose source pixels the settings force to zero
     for wt in (False, True):
-        for positive, p_init, force in ((False, False, False), (True, False, False), (True, True, False), (True, False, True), (True, True, True)):
-            fx = fix_inv.make_dataset(frame, ks, bits, psf_kind=kind, seed=seed, sub=sub, data_kind=dk)
+        for positive, p_init, force in ((False, False, False), (True, False, False), (True, True, False), (True, False, True), (True, True, True),
+                                        (True, False, "image"), (True, True, "image")):
+            fx = fix_inv.make_dataset(frame, ks, bits, psf_kind=kind, seed=seed, sub=sub, data_kind=dk, units=units)
             aa = fx["aa"]
-            objs = [fix_inv.make_obj(fx, k, reg=r, seed=seed) for k, r in zip(kinds, regs)]
-            st = fix_inv.settings(aa, wt, positive=positive, p_initial=p_init, force_edge=force, diag=1e-3)
+            objs = [fix_inv.make_obj(fx, k, reg=r, seed=seed, coefficient=1.0 / units) for k, r in zip(kinds, regs)]
+            st = fix_inv.settings(aa, wt, positive=positive, p_initial=p_init, force_edge=bool(force), diag=1e-3 / units ** 2)
+            if force == "image":
+                st.force_edge_image_pixels_to_zeros = True
+                st.image_pixels_source_zero = list(img_zero)
             inv = aa.Inversion(dataset=fx["ds"], linear_obj_list=objs, settings=st)
-            name = "%s/pos=%s/pinit=%s/force=%s" % ("wtilde" if wt else "mapping", positive, p_init, force)
-            A = np.array(inv.curvature_reg_matrix, dtype=float)
-            D = np.array(inv.data_vector, dtype=float)
+            name = "%s/pos=%s/pinit=%s/force=%s%s" % ("wtilde" if wt else "mapping", positive, p_init, force, "" if units == 1.0 else "/units=%g" % units)
+            # in other units the system is an exact rescaling: bring it back to units of one before certifying
+            A = np.array(inv.curvature_reg_matrix, dtype=float) * units ** 2
+            D = np.array(inv.data_vector, dtype=float) * units
+            if units != 1.0 and np.linalg.cond(A) > 1e11:
+                # two mappers that can both represent a constant source are separated only by the library's fixed 1e-8 ridge,
+                # which is negligible in small units: the system is numerically singular, outside the property's quantifier
+                continue
             try:
-                s = np.array(inv.reconstruction, dtype=float)
+                s_raw = np.array(inv.reconstruction, dtype=float)
+                s = s_raw / units
             except aa.exc.InversionException:
-                # permitted outcome for the unconstrained solver on a singular system only
+                # permitted outcome for the unconstrained solver on a singular system only (and, for the positive-only solver,
+                # when the settings force every parameter to zero so that no system is left to solve)
                 sing = np.linalg.cond(A) > 1e12
-                v.ok(sing and not positive, "reconstruction:spurious-InversionException", name)
+                nothing_left = bool(force) and len(_forced_zero_ids(aa, objs, force, img_zero)) == len(D)
+                v.ok((sing and not positive) or (positive and nothing_left), "reconstruction:spurious-InversionException", name)
                 continue
             scale = max(1.0, np.abs(A).max() * max(1.0, np.abs(s).max()), np.abs(D).max())
             if not positive:
@@ -183,7 +229,13 @@ def run_inv(v, case):
                     neg_seen = True
                 u = s
             else:
-                zero_ids = sorted(set(int(i) for i in inv.mapper_edge_pixel_list)) if force else []
+                # forced-zero parameters from each mapper's own edge list / mapping matrix and its offset in the parameter vector
+                zero_ids = _forced_zero_ids(aa, objs, force, img_zero)
+                if force:
+                    listed = sorted(set(int(i) for i in inv.mapper_edge_pixel_list))
+                    if force == "image":
+                        listed = sorted(set(listed) | set(int(i) for a in inv.mapper_zero_pixel_list for i in np.atleast_1d(a)))
+                    v.ok(listed == zero_ids, "positive-only:forced-zero-set", lambda: "%s inversion lists %s, objects and offsets give %s" % (name, listed, zero_ids))
                 keep = np.ones(len(D), dtype=bool)
                 keep[zero_ids] = False
                 v.ok(bool((s[~keep] == 0.0).all()), "positive-only:forced-zero-not-zero", name)
@@ -206,16 +258,20 @@ def run_inv(v, case):
                 off = 0
                 for o, wdt in zip(objs, widths):
                     part = np.array(dct[o], dtype=float)
-                    want = B[:, off:off + wdt] @ s[off:off + wdt]
-                    v.ok(np.allclose(part, want, rtol=1e-8, atol=1e-9 * max(1.0, np.abs(want).max())), "mapped_reconstructed_data_dict",
+                    want = B[:, off:off + wdt] @ s_raw[off:off + wdt]
+                    v.ok(np.allclose(part, want, rtol=1e-8, atol=1e-9 * max(units, np.abs(want).max())), "mapped_reconstructed_data_dict",
                          lambda: "%s object %s maxdiff=%s" % (name, type(o).__name__, dom.maxdiff(part, want)))
-                    v.ok(dom.exact(np.array(rd[o]), s[off:off + wdt]), "reconstruction_dict", name)
+                    v.ok(dom.exact(np.array(rd[o]), s_raw[off:off + wdt]), "reconstruction_dict", name)
                     total += part
                     off += wdt
                 tot = np.array(inv.mapped_reconstructed_data, dtype=float)
-                v.ok(np.allclose(tot, total, rtol=1e-10, atol=1e-12 * max(1.0, np.abs(total).max())), "mapped_reconstructed_data:sum", name)
+                v.ok(np.allclose(tot, total, rtol=1e-10, atol=1e-12 * max(units, np.abs(total).max())), "mapped_reconstructed_data:sum", name)
             except Exception as e:
                 v.fail("mapped_reconstructed_data:exception", "%s %r" % (name, e))
+    if units != 1.0:
+        v.nontrivial = neg_seen and sup_differs
+        v.outcome = "inv:%s:units:neg=%s:supdiff=%s" % (dk, neg_seen, sup_differs)
+        return
     # ---- history: the same linear objects used by several successive inversions (forced-zero edge pixels must be those of
     # each object as freshly built; nothing an earlier inversion did may change a later one)
     fx = fix_inv.make_dataset(frame, ks, bits, psf_kind=kind, seed=seed, sub=sub, data_kind=dk)
@@ -277,6 +333,18 @@ def run_inv(v, case):
             cfg[k] = val
     v.nontrivial = neg_seen and sup_differs
     v.outcome = "inv:%s:neg=%s:supdiff=%s" % (dk, neg_seen, sup_differs)
+
+
+def _forced_zero_ids(aa, objs, force, img_zero):
+    zero_ids, offp = set(), 0
+    for o in objs:
+        if force and isinstance(o, aa.AbstractMapper):
+            zero_ids.update(offp + int(i) for i in o.edge_pixel_list)
+            if force == "image":
+                mm = np.array(o.mapping_matrix, dtype=float)
+                zero_ids.update(offp + int(j) for j in np.nonzero((mm[img_zero] != 0).any(axis=0))[0])
+        offp += int(o.params)
+    return sorted(zero_ids)
 
 
 def run_case(case):
